@@ -5,7 +5,7 @@ props=[json.loads(l) for l in open('/verif/properties.jsonl')]
 ids=[p['id'] for p in props]
 
 LEVEL_NOTE=("Trusted base: go/ssa (x/tools v0.50.0) as the semantics of the source, the symgo SSA interpreter and term rewriter "
- "(validated by selftest against native execution), z3 4.8.12 (cvc5 1.0 integer encoding as fall-back). "
+ "(validated by selftest against native execution), z3 5.1.0 incremental (fall-back on unknown: one-shot z3 4.8.12, then cvc5 1.0 integer encoding). "
  "Harness stubs listed in the evidence 'assumptions'. Everything outside the stated bounds is outside the claim.")
 
 claimed = {
